@@ -1,7 +1,7 @@
 (** C12 — strings are sequences of scalar values whatever the encoding: property theorems only.
     [cp c] = code point 0..0x10FFFF (a superset of the scalar values); [Rep h s cs] = in heap [h]
     the string record [s] (bytes object, offset, size) represents the code-point array [cs]. *)
-From ChibiV Require Import C12.Model C12.Spec C12.Utf8Proofs C12.Proofs C12.Proofs2.
+From ChibiV Require Import C12.Model C12.Spec C12.Utf8Proofs C12.Proofs C12.Proofs2 C12.Proofs3.
 Local Open Scope Z_scope.
 
 Theorem utf8_roundtrip : forall c, cp c -> forall rest,
@@ -96,3 +96,32 @@ Theorem string_history_observables : forall ops, Forall op_ok ops ->
               if (0 <=? i) && (i <? Z.of_nat (length (svar sp v))) then Ok (nth (Z.to_nat i) (svar sp v) 0) else Err RangeErr.
 Proof. exact history_observables. Qed.
 Print Assumptions string_history_observables.
+
+Theorem string_cursor_next_refines : forall h s cs k, Rep h s cs -> (k < length cs)%nat ->
+  cursor_next h s (cursor_of cs k) = cursor_of cs (S k).
+Proof. exact cursor_next_refines. Qed.
+Print Assumptions string_cursor_next_refines.
+
+Theorem string_cursor_next_prev_inverse : forall h s cs k, Rep h s cs -> (k < length cs)%nat ->
+  cursor_prev h s (cursor_of cs (S k)) = Ok (Z.of_nat (cursor_of cs k)) /\
+  cursor_prev h s (cursor_next h s (cursor_of cs k)) = Ok (Z.of_nat (cursor_of cs k)).
+Proof. intros h s cs k R Hk. split; [exact (cursor_prev_refines h s cs k R Hk)|exact (cursor_next_prev_inverse h s cs k R Hk)]. Qed.
+Print Assumptions string_cursor_next_prev_inverse.
+
+Theorem string_cursor_to_index_refines : forall h s cs k, Rep h s cs -> (k <= length cs)%nat ->
+  cursor_to_index h s (Z.of_nat (cursor_of cs k)) = Ok k.
+Proof. exact cursor_to_index_refines. Qed.
+Print Assumptions string_cursor_to_index_refines.
+
+Theorem utf8_to_string_shared_rep : forall h bv pre cs post, (bv < length h)%nat -> Forall cp cs ->
+  nth bv h [] = pre ++ enc_all cs ++ post -> post <> [] ->
+  Rep h (of_utf8_shared bv (length pre) (length pre + length (enc_all cs))) cs.
+Proof. exact of_utf8_shared_rep. Qed.
+Print Assumptions utf8_to_string_shared_rep.
+
+Theorem string_to_utf8_of_utf8 : forall h s cs, Rep h s cs ->
+  to_utf8 h s = (h ++ [enc_all cs ++ [0]], length h) /\
+  let '(h1, bv) := to_utf8 h s in
+  exists q s', of_utf8 h1 bv 0 (length (enc_all cs)) = Ok (h1 ++ [q], s') /\ Rep (h1 ++ [q]) s' cs.
+Proof. intros h s cs R. split; [exact (to_utf8_refines h s cs R)|exact (to_utf8_of_utf8 h s cs R)]. Qed.
+Print Assumptions string_to_utf8_of_utf8.
